@@ -256,6 +256,9 @@ var applicable = map[string][]string{
 	"diskpacked": {clsFetchZeroed, clsEnumScan},
 	"shard":      {clsFetchZeroed, clsEnumScan},
 	"proxy":      {clsFetchZeroed, clsStaleCache, clsEnumScan},
+	"proxymc":    {clsFetchZeroed, clsStaleCache, clsEnumScan},
+	"memcache":   {},
+	"encrypt":    {clsEnumScan},
 }
 
 type verdict struct {
